@@ -29,6 +29,9 @@ func NewMemoryState[T public_types.PersistentType]() public_types.SharedStateI[T
 }
 
 func (p *memoryState[T]) WithClock(clock clock.Clock) public_types.SharedStateI[T] {
+	// called for every new quota group while other requests read the clock under the same mutex
+	p.mutex.Lock()
+	defer p.mutex.Unlock()
 	p.clock = clock
 	return p
 }
@@ -154,7 +157,9 @@ func (p *memoryState[T]) SMembers(key string) ([]string, error) {
 		return []string{}, err
 	}
 
-	return set.([]string), nil
+	// a copy: the caller iterates over it while other requests add and remove members
+	members := set.([]string)
+	return append(make([]string, 0, len(members)), members...), nil
 }
 
 func (p *memoryState[T]) SRem(key string, value string) error {
